@@ -1460,6 +1460,9 @@ class TTNS(TTNBase):
             order = self.basis.basis_list
         indices_up = []
         for basis in order:
+            if isinstance(basis, BasisDummy):
+                # size-1 axes are squeezed in `to_contract_args`, same as `TTNO.todense`
+                continue
             indices_up.append(("down", str(basis.dofs)))
         output_indices = indices_up
         args.append(output_indices)
